@@ -1,16 +1,17 @@
-# Per-property configuration of ./check: which Lean modules hold the obligations, what is trusted.
+# Per-property configuration of ./check, one file per property: meta/<ID>.json
+#   lean_modules   modules holding this property's obligations (Props + Tie modules)
+#   trusted_base / assumptions / explanation   copied into the evidence file
+#   timeout {quick, thorough}   seconds for the harness run;  race: build the harness with -race
+#   manifest {level_text, level_note, technique, design_ref}   used by gen_manifest.py
+import json, os
+_D = os.path.join(os.path.dirname(os.path.abspath(__file__)), "meta")
 KERNEL = "Lean 4.33.0 kernel (lake build; axioms of every property theorem audited against {propext, Classical.choice, Quot.sound}; no native_decide / bv_decide; thorough tier re-checks the .olean files with leanchecker)"
-TIE_T1 = "T1 extractor /verif/harness/cmd/extract (go/ast facts -> lean/Ibx/Gen, regenerated on every run)"
-TIE_T2 = "T2 correspondence harness /verif/harness/cmd/drive + line-protocol driver lean/Driver (canonicalisers, generators) — differential testing, bounds what is seen of the model/code agreement"
-
-PROPS = {
-    "C05": {
-        "lean_modules": ["Ibx.Props.C05", "Ibx.Tie.Addr"],
-        "trusted_base": [KERNEL, TIE_T1, TIE_T2,
-                         "models written by hand: Ibx/Model/{Policy,Wild,Addr}.lean (policy decisions, the wildcard DP, ValidateDomainPart)",
-                         "modelled, not verified: strings.ToLower beyond ASCII, envconfig's comma splitting, net.ParseIP (parameter `ip`)"],
-        "assumptions": ["configuration entries are ASCII (generated so)", "bracketed IP-literal sender domains contain no '*' (net.ParseIP accepts none)"],
-        "explanation": "Theorems: accept_rule/store_rule/origin_rule equate the code-shaped decisions with the sentences of doc/config.md for all configurations and domains; wild_correct proves the DP matcher equals textbook glob for all patterns and all star-free subjects (unbounded); T2 runs the real functions against the model.",
-        "timeout": {"quick": 600, "thorough": 3000},
-    },
-}
+TIE_T1 = "T1 extractor /verif/harness/cmd/extract (go/ast facts -> lean/Ibx/Gen, regenerated on every run, tied by the theorems of Ibx/Tie)"
+TIE_T2 = "T2 correspondence harness /verif/harness/cmd/drive + line-protocol driver lean/Driver (canonicalisers, generators): differential testing, bounds what is seen of the model/code agreement"
+PROPS = {}
+for _f in sorted(os.listdir(_D)):
+    if _f.endswith(".json"):
+        _m = json.load(open(os.path.join(_D, _f)))
+        _m["trusted_base"] = [KERNEL, TIE_T1, TIE_T2] + _m.get("trusted_base", [])
+        _m.setdefault("assumptions", [])
+        PROPS[_f[:-5]] = _m
